@@ -478,6 +478,8 @@ class VariationalGammaMethod(EstimationMethod):
             raise ValueError("Maximum number of EP iterations must be greater than 0")
         if self.mutation_rate is None:
             raise ValueError("Variational gamma method requires mutation rate")
+        if not max_shape > 1:
+            raise ValueError("Maximum shape parameter must be greater than 1")
 
         fit_obj = variational.ExpectationPropagation(
             self.ts,
